@@ -224,6 +224,8 @@ def build_specset(spec, root, uid, modname, created, reinvoked):
 
 
 def run_case(spec, ctx):
+    if "archive" in spec and "corruption" in spec:
+        spec = spec["archive"]         # a replay file holds (archive, corruption): the archive goes through every corruption again
     from insights.core import dr, hydration
     from insights.core import spec_factory as sf
     from insights.core.context import HostContext, SerializedArchiveContext
